@@ -44,6 +44,19 @@ L1 == L(<<S1>>)
 FhtVals    == {L1, S1, D1("b", L1), N(("a" :> L1) @@ ("b" :> L(<<Sx, S1>>)), <<>>), D1("a", D1("b", L1))}
 U_FhtSmall == {N(d, <<>>) : d \in UNION {[K -> FhtVals] : K \in (SUBSET {"a", "b"}) \ {{}}}}
 
+\* sources in which the value AT a per-field path is a reference to a list / dictionary of the same source
+\* (zz occurs nowhere in the destinations, so the reference denotes the same sub-config before and after the merge)
+RefTgts  == {L1, L(<<Sx, S1>>), D1("b", L1)}
+U_FhtRef == {N(("zz" :> t) @@ (key :> Alias("zz", t)), <<>>) : t \in RefTgts, key \in {"a", "b"}}
+            \cup {N(("zz" :> t) @@ ("a" :> D1("b", Alias("zz", t))), <<>>) : t \in RefTgts}
+            \cup {N(("zz" :> t) @@ ("a" :> Alias("zz", t)) @@ ("b" :> L1), <<>>) : t \in RefTgts}
+
+\* per-field paths THROUGH A LIST INDEX (the policy tree then holds nil placeholders in front of the index): lists whose
+\* elements are lists / dictionaries that contain the same indices and names again
+IdxVals  == {L(<<L(<<S1, Sx>>), L(<<S1>>)>>), L(<<D1("b", L1), D1("b", L(<<Sx, S1>>))>>), L(<<L(<<Sx>>), D1("b", L1)>>),
+             L(<<L(<<Sx, S1>>)>>), L(<<D1("b", L(<<Sx>>)), L(<<S1, Sx>>)>>)}
+U_FhtIdx == {N(("a" :> v), <<>>) : v \in IdxVals}
+
 FP_Named == {<<NF("b")>>, <<NF("a")>>, <<NF("a"), NF("b")>>, <<NF("b"), NF("a")>>, <<NF("c")>>}
 FP_None  == {}
 FP_All   == FP_Named \cup {<<NF("**"), NF("b")>>, <<NF("a"), NF("**"), NF("b")>>}
